@@ -110,13 +110,10 @@ def minifyText (o : JsonOpts) (num : List Char → Int → List Char) (text : Li
 /-- `[ minus ] ( int [ frac ] | frac ) [ exp ]` — the JSON number grammar except that the integer
     part may be missing when a fraction follows (`.5`, `-.5e-7`) -/
 def unsignedMinOk (r : List Char) : Bool :=
-  (intOk (r.takeWhile isDigit) ||
-    ((r.takeWhile isDigit).isEmpty && (match r.dropWhile isDigit with | '.' :: _ => true | _ => false))) &&
+  (intOk (r.takeWhile isDigit) || ((r.takeWhile isDigit).isEmpty && hasDot (r.dropWhile isDigit))) &&
   fracExpOk (r.dropWhile isDigit)
 
-def isMinNumber : List Char → Bool
-  | '-' :: r => unsignedMinOk r
-  | r => unsignedMinOk r
+def isMinNumber (s : List Char) : Bool := unsignedMinOk (stripMinus s)
 
 /-- the result of `Number` starts with `.` or `-.` (the repair adds one byte) -/
 def startsDot : List Char → Bool
